@@ -61,6 +61,10 @@ pub struct Program {
     /// accepted, resolved and replicated -- still one copy per secondary)
     #[serde(default = "default_strategy")]
     pub strategy: String,
+    /// 3-node clusters: the first primary is killed before the judged operations, so that the primary is a
+    /// node the others first knew (and connected to) as a secondary
+    #[serde(default)]
+    pub failover: bool,
 }
 
 fn default_strategy() -> String {
@@ -100,7 +104,8 @@ fn gen(rng: &mut Rng) -> Program {
         ));
     }
     let strategy = if rng.chance(1, 3) { "newer" } else { "none" }.to_string();
-    Program { nodes, ops, strategy }
+    let failover = nodes == 3 && rng.chance(1, 4);
+    Program { nodes, ops, strategy, failover }
 }
 
 struct Outcome {
@@ -200,15 +205,42 @@ fn execute(prog: Program) -> Outcome {
         out.setup = Err("setup_unstable".into());
         return out;
     }
+    // optional fail-over: the oldest survivor takes over (elections are C07's subject: a cluster that does
+    // not re-form is discarded here)
+    let first = if prog.failover && prog.nodes == 3 {
+        with(|k| k.fault("primary_killed_before_ops"));
+        w.kill(0);
+        // the aftermath of an election (leave notices, the winner's announcement, their acks) trickles in
+        // for up to an election timeout: the judged operations start from a long silence
+        let quiet_ms = 3 * election_timeout_ms() + 500;
+        let ok = wait_cond(20_000, 100, || w.agreed_primary() == Ok(1)) && w.settle(quiet_ms, 30_000) && w.agreed_primary() == Ok(1);
+        if !ok {
+            out.setup = Err("setup_unstable".into());
+            return out;
+        }
+        1
+    } else {
+        0
+    };
     out.setup = Ok(());
-    let pidx = w.nodes[0].idx;
-    let nsec = (prog.nodes - 1) as u64;
+    let pidx = w.nodes[first].idx;
+    let nsec = (prog.nodes - 1 - first) as u64;
     with(|k| k.net.line_log = Some(Vec::new()));
     let mut uniq = 0;
     let mut ndb = 0;
     for (oi, (node, op)) in prog.ops.iter().enumerate() {
-        let node = (*node).min(prog.nodes - 1);
-        let role = if node == 0 { "primary" } else { "secondary" };
+        let node = (*node).min(prog.nodes - 1).max(first);
+        let role = if node == first {
+            if first == 0 {
+                "primary"
+            } else {
+                "primary-after-failover"
+            }
+        } else if first == 0 {
+            "secondary"
+        } else {
+            "secondary-after-failover"
+        };
         // silence before the operation
         with(|k| k.net.line_log.as_mut().unwrap().clear());
         uniq += 1;
@@ -257,7 +289,7 @@ fn execute(prog: Program) -> Outcome {
             }
             Op::ConflictAndResolve { resolver_node } => {
                 // arbiter registered on `resolver_node`, conflicting write issued on `node`
-                let rn = (*resolver_node).min(prog.nodes - 1);
+                let rn = (*resolver_node).min(prog.nodes - 1).max(first);
                 let mut arb = Session::admin(&dbs[rn]);
                 arb.exec("use-db a tok");
                 arb.exec("arbiter");
@@ -395,7 +427,7 @@ impl Property for C14 {
         (10_000, 300_000)
     }
     fn rule(&self) -> &'static str {
-        "stable clusters of 2-3 real nodes; 1-5 client-visible commands of {set,set-safe,remove,increment,get,keys,watch,create-db,create-user,set-permissions,snapshot,cluster-state,metrics-state, conflicting write on an arbiter database + the arbiter's resolve (arbiter on any node)} issued one at a time on a seeded node; every line crossing a simulated inter-node link is recorded and attributed: forwards to the primary <= 1 per client operation, copies of one replicated message <= number of secondaries, acks <= copies, distinct replicated messages <= 1 per client operation (<= 3 on the arbiter conflict/resolve path), nothing from secondary to secondary, quiescence within 8 simulated s and no line during a further 2 x election timeout. Non-trivial: the command produced at least one inter-node line. distinct = distinct (program, task-switch sequence)."
+        "stable clusters of 2-3 real nodes (a quarter of the 3-node clusters after a fail-over: the first primary is killed and the oldest survivor, which the others first knew as a secondary, has taken over); 1-5 client-visible commands of {set,set-safe,remove,increment,get,keys,watch,create-db,create-user,set-permissions,snapshot,cluster-state,metrics-state, conflicting write on an arbiter database + the arbiter's resolve (arbiter on any node)} issued one at a time on a seeded node; every line crossing a simulated inter-node link is recorded and attributed: forwards to the primary <= 1 per client operation, copies of one replicated message <= number of secondaries, acks <= copies, distinct replicated messages <= 1 per client operation (<= 3 on the arbiter conflict/resolve path), nothing from secondary to secondary, quiescence within 8 simulated s and no line during a further 2 x election timeout. Non-trivial: the command produced at least one inter-node line. distinct = distinct (program, task-switch sequence)."
     }
     fn assumptions(&self) -> Vec<String> {
         vec!["membership/election traffic is not generated in this check (the cluster is stable); `ok` replies to link commands are not counted as messages".into()]
